@@ -616,25 +616,8 @@ func C13(p *core.Program, r *core.Report) {
 	// URL it works with (and reports) must be that string parsed as a URL reference, fragment
 	// included: url.ParseRequestURI is documented to assume a URL without fragment and takes
 	// "#section" for a part of the path (http://h/a#b -> http://h/a%23b).
-	if au := mustInl(p, r, "L7", core.ModPath+".ApplyForURL"); au != nil {
-		cn := core.NewCanon(p)
-		n, bad := 0, ""
-		for _, in := range instrsOf(au) {
-			if st, ok := in.(*ssa.Store); ok && strings.HasSuffix(cn.Of(st.Addr), ".OriginalURL") {
-				n++
-				if v := cn.Of(st.Val); v != "url.Parse($0)#0" {
-					bad = v
-				}
-			}
-		}
-		// ... and it is used as parsed: nothing in ApplyForURL writes a part of it
-		for _, in := range instrsOf(au) {
-			if st, ok := in.(*ssa.Store); ok && strings.Contains(cn.Of(st.Addr), "url.Parse($0)#0") && !strings.HasSuffix(cn.Of(st.Addr), ".OriginalURL") {
-				bad = "store to " + cn.Of(st.Addr) + " at " + p.Pos(st.Pos())
-			}
-		}
-		r.Add("L7", "ApplyForURL: the page URL is the supplied string parsed as a URL (fragment-aware)", p.Pos(au.Pos()), n >= 1 && bad == "", fmt.Sprintf("%d stores to OriginalURL; other value: %s", n, bad))
-	}
+	checkApplyForURLParse(p, r, "L7")
+	checkApplyForURLOptions(p, r, "L8")
 
 	// the option fields are read only to steer
 	for _, b := range ap.Blocks {
@@ -858,4 +841,69 @@ func recordTypeOf(addr ssa.Value) string {
 		return ""
 	}
 	return n.String()
+}
+
+// checkApplyForURLParse (L7 of C13, shared with C06-U7).
+func checkApplyForURLParse(p *core.Program, r *core.Report, rule string) {
+	if au := mustInl(p, r, rule, core.ModPath+".ApplyForURL"); au != nil {
+		cn := core.NewCanon(p)
+		n, bad := 0, ""
+		for _, in := range instrsOf(au) {
+			if st, ok := in.(*ssa.Store); ok && strings.HasSuffix(cn.Of(st.Addr), ".OriginalURL") {
+				n++
+				if v := cn.Of(st.Val); v != "url.Parse($0)#0" {
+					bad = v
+				}
+			}
+		}
+		// ... and it is used as parsed: nothing in ApplyForURL writes a part of it
+		for _, in := range instrsOf(au) {
+			if st, ok := in.(*ssa.Store); ok && strings.Contains(cn.Of(st.Addr), "url.Parse($0)#0") && !strings.HasSuffix(cn.Of(st.Addr), ".OriginalURL") {
+				bad = "store to " + cn.Of(st.Addr) + " at " + p.Pos(st.Pos())
+			}
+		}
+		r.Add(rule, "ApplyForURL: the page URL is the supplied string parsed as a URL (fragment-aware)", p.Pos(au.Pos()), n >= 1 && bad == "", fmt.Sprintf("%d stores to OriginalURL; other value: %s", n, bad))
+	}
+
+}
+
+// checkApplyForURLOptions (C13-L8): "options do only what they say" also for ApplyForURL: the
+// options it hands on are a whole copy of the caller's (one struct copy, taken only when the
+// caller gave some) in which nothing but OriginalURL is set afterwards - a copy made field by
+// field silently loses every option it does not name.
+func checkApplyForURLOptions(p *core.Program, r *core.Report, rule string) {
+	au := mustInl(p, r, rule, core.ModPath+".ApplyForURL")
+	if au == nil {
+		return
+	}
+	cn := core.NewCanon(p)
+	var local *ssa.Alloc
+	for _, call := range core.Calls(au, func(ci ssa.CallInstruction) bool { return core.IsCallTo(ci, core.ModPath+".ApplyForReader") }) {
+		if a, ok := core.StripConv(call.Common().Args[1]).(*ssa.Alloc); ok {
+			local = a
+		}
+	}
+	if local == nil {
+		r.Add(rule, "ApplyForURL hands on a private copy of the caller's options", p.Pos(au.Pos()), false, "the options given to ApplyForReader are not a local value")
+		return
+	}
+	whole, fields := 0, []string{}
+	for _, in := range instrsOf(au) {
+		st, ok := in.(*ssa.Store)
+		if !ok {
+			continue
+		}
+		if st.Addr == ssa.Value(local) {
+			if cn.Of(st.Val) == "*$2" {
+				whole++
+			}
+			continue
+		}
+		if fa, ok := st.Addr.(*ssa.FieldAddr); ok && fa.X == ssa.Value(local) {
+			fields = append(fields, core.FieldNameOf(fa))
+		}
+	}
+	sort.Strings(fields)
+	r.Add(rule, "ApplyForURL hands on a whole copy of the caller's options with only OriginalURL replaced", p.Pos(au.Pos()),
+		whole == 1 && len(fields) == 1 && fields[0] == "OriginalURL", fmt.Sprintf("%d whole-struct copies of *opts; fields set afterwards: %v", whole, fields))
 }
